@@ -35,7 +35,8 @@ SPEC = dict(
     design_ref="DESIGN.md section 6 (C01)",
     quick_s=50, thorough_s=900,
     rule=("one run = one tape: stratum (13 raw pipe : 3 quic : 3 upgrader : 1 swarm); pipe: kind (configuration matrix | wire edit | splice of "
-          "two sessions | replay | Byzantine peer) x Noise|TLS x identity key type per side x expectation per side x Noise session "
+          "two sessions | replay | Byzantine peer | one Noise SessionTransport reused for 2-4 handshakes in drawn roles: inbound "
+          "anonymous / inbound named / outbound, each with the named peer or an impostor holding its own key) x Noise|TLS x identity key type per side x expectation per side x Noise session "
           "options (prologue pairing, DisablePeerIDCheck, early data) x link chunking (whole; fragment/tiny only when every length "
           "on the wire is a function of the tape) x edit (kind, direction, frame, position, mask, amount) resp. forged-credential "
           "variant; upgrader: security lists per side x expectation x edit of a multistream-select frame; swarm: A dials P at the "
@@ -51,6 +52,9 @@ SPEC = dict(
             "sender-completes-while-receiver-refuses", "rerouted-session-completes-with-true-identity", "early-data-delivered",
             "forged-credential-refused-noise", "forged-credential-refused-tls", "byzantine-control-accepted",
             "credential-verified-before-replay-tls", "credential-verified-before-replay-noise",
+            "reused-session-transport-named-after-anonymous", "reused-session-transport-refuses-impostor-after-anonymous",
+            "reused-session-transport-inbound-anonymous-completes", "reused-session-transport-inbound-named-completes",
+            "reused-session-transport-outbound-completes",
             "edit-noise-I>R#0", "edit-noise-R>I#0", "edit-noise-I>R#1",
             "edit-tls-I>R#0", "edit-tls-I>R#1", "edit-tls-I>R#2", "edit-tls-I>R#3",
             "edit-tls-R>I#0", "edit-tls-R>I#1", "edit-tls-R>I#2", "edit-tls-R>I#3", "edit-tls-R>I#4", "edit-tls-R>I#5",
